@@ -122,6 +122,8 @@ const maxTmpls = 96
 type keyEvaluator struct {
 	c        *Ctx
 	undecide []string // reasons collected while evaluating
+	// phiLive, when set, prunes phi edges (specialisation on a boolean parameter)
+	phiLive func(phi *ssa.Phi, i int) bool
 }
 
 func (c *Ctx) keys() *keyEvaluator {
@@ -211,7 +213,14 @@ func (k *keyEvaluator) eval(v ssa.Value, env kenv, depth int, busy map[ssa.Value
 		return k.eval(x.X, env, depth, busy)
 	case *ssa.Phi:
 		var out []Tmpl
-		for _, e := range x.Edges {
+		for i, e := range x.Edges {
+			if k.phiLive != nil && !k.phiLive(x, i) {
+				continue
+			}
+			if phiEdgeKnownNil(x, i) {
+				out = union(out, []Tmpl{{Part{K: pNil}}})
+				continue
+			}
 			out = union(out, k.eval(e, env, depth, busy))
 		}
 		return out
@@ -764,4 +773,27 @@ func keysMayCollide(a, b string) bool {
 		}
 	}
 	return true
+}
+
+// phiEdgeKnownNil: the value arriving on edge i of phi was just found nil by
+// the conditional that ends the predecessor block (`if v != nil {..}` join).
+func phiEdgeKnownNil(phi *ssa.Phi, i int) bool {
+	pred := phi.Block().Preds[i]
+	if len(pred.Instrs) == 0 || len(pred.Succs) != 2 {
+		return false
+	}
+	iff, ok := pred.Instrs[len(pred.Instrs)-1].(*ssa.If)
+	if !ok {
+		return false
+	}
+	x, tnil, ok := nilTest(iff.Cond)
+	if !ok || x != phi.Edges[i] {
+		return false
+	}
+	for j, s := range pred.Succs {
+		if s == phi.Block() && pred.Succs[1-j] != phi.Block() {
+			return (j == 0) == tnil
+		}
+	}
+	return false
 }
